@@ -37,7 +37,7 @@ units.vspec:
 import re
 
 FN_KEYS = {'tags', 'returns', 'requires', 'ensures', 'decreases', 'unwind', 'dassert', 'paramtype', 'generics', 'where',
-           'attr', 'loop', 'proof', 'rename', 'opt', 'recommends', 'site', 'lift', 'template', 'subst', 'selfname', 'rettype', 'implgenerics', 'nounwind', 'via'}
+           'attr', 'loop', 'proof', 'rename', 'opt', 'recommends', 'site', 'lift', 'template', 'subst', 'selfname', 'paramrename', 'rettype', 'implgenerics', 'nounwind', 'via'}
 LOOP_KEYS = {'invariant', 'invariant_except_break', 'ensures', 'decreases'}
 
 
@@ -100,6 +100,7 @@ class FnSpec:
         self.rettype = None
         self.implgenerics = None
         self.via = None
+        self.renames = {}
 
     @property
     def path(self):
@@ -307,6 +308,10 @@ def parse_vspec(path, modules):
                 i += 1
             elif key == 'attr':
                 cur_fn.attrs.append(rest.strip())
+                i += 1
+            elif key == 'paramrename':
+                k, v = rest.split('=>')
+                cur_fn.renames[k.strip()] = v.strip()
                 i += 1
             elif key == 'rename':
                 cur_fn.rename = rest.strip()
